@@ -83,6 +83,14 @@ def Admissible (w : World) : Op → Prop
   | .inst n _ _ => w.findInst n = none
   | _ => True
 
+/-- keys of an association list are pairwise different (a Python dict) -/
+def KeysNodup {α : Type} (l : List (Name × α)) : Prop := (l.map (·.1)).Nodup
+
+/-- class bodies are Python dicts: the names written in one class body are pairwise different -/
+def WellFormed : Op → Prop
+  | .define d => KeysNodup d.decls
+  | _ => True
+
 /-- every operation of the list is admissible when its turn comes -/
 def AdmissibleRun (T : Tables) : World → List Op → Prop
   | _, [] => True
